@@ -25,13 +25,76 @@ import tempfile
 import core
 
 LEVEL = "proof"
-EXTRA_TARGETS = ["model/LocksTie.vo"]
+EXTRA_TARGETS = ["model/LocksTie.vo", "model/ExchangeTie.vo"]
 TERM = 0
 SHARD = 24
 HANG_SEEN = False
 
 HEADER = ("From Coq Require Import List Arith Bool ZArith.\nImport ListNotations.\n"
           "From TI Require Import lib.Sched model.Locks model.LocksTie.\nOpen Scope nat_scope.\n")
+
+
+HEADER_X = ("From Coq Require Import List Arith Bool.\nImport ListNotations.\n"
+            "From TI Require Import model.Exchange model.ExchangeTie.\nOpen Scope nat_scope.\n")
+
+# ---- exchange scenarios: a REAL query function (first, uncached call; scripted FIFO terminal in
+# the OS layer) in thread 1 (and 3), a synchronized reader that does not flush (read_tty_all) in
+# thread 2, released at EVERY point of the query function's run (its park points are the lock
+# operations: before / between / after the two reads in particular)
+XFUNCS = {"name_version": "get_terminal_name_version()", "fg_bg": "get_fg_bg_colors()", "cell_size": "get_cell_size()"}
+X_A_STEPS = 26  # more than the lock operations of the longest query function
+
+
+def x_cases(rng, quick):
+    cases = []
+    for f in XFUNCS:
+        base = {"xchg": f, "threads": [[1, 0, [["xq", f]]], [2, 0, [["xr", "read_tty_all"]]]]}
+        for k in range(X_A_STEPS + 1):
+            cases.append(dict(base, sched=[1] * k + [2] * 6))
+        for _ in range(4 if quick else 60):
+            cases.append(dict(base, sched=[rng.choice([1, 1, 2]) for _ in range(rng.randint(8, 34))]))
+    # two different queries racing with each other and with the reader
+    for _ in range(12 if quick else 200):
+        f, g = rng.sample(sorted(XFUNCS), 2)
+        cases.append({"xchg": f + "+" + g,
+                      "threads": [[1, 0, [["xq", f]]], [2, 0, [["xr", "read_tty_all"]]], [3, 0, [["xq", g]]]],
+                      "sched": [rng.choice([1, 1, 2, 3, 3]) for _ in range(rng.randint(10, 50))]})
+    return cases
+
+
+XMAP = {1: lambda e: [1], 2: lambda e: [2], 10: lambda e: [3], 11: lambda e: [4, e[1]], 12: lambda e: [5, e[1]]}
+
+
+def x_obs(log):
+    return [[t, XMAP[e[0]](e) if e[0] in XMAP else [99]] for t, e in log]
+
+
+def evaluate_x(cases, tag="c14q"):
+    impl = core.run_impl_parallel("impl_c14.py", cases)
+    errors = []
+    for i, r in enumerate(impl):
+        if r.get("error"):
+            errors.append(f"exchange case {i}: driver: {r['error']}")
+    good = [i for i, r in enumerate(impl) if "log" in r]
+    terms = [core.coq_list(x_obs(impl[i]["log"]), lambda e: "(%d, %s)" % (e[0], nl(e[1]))) for i in good]
+    out, errs = core.coq_shards(tag, HEADER_X, terms, "list (nat * list nat)", "xbad cases", shard=40)
+    errors += errs
+    codes = [0] * len(cases)
+    for idx, code in out:
+        codes[good[idx]] = code
+    return codes, errors, impl
+
+
+def describe_x(c, r=None):
+    who = {1: "A", 2: "B", 3: "C"}
+    t = " | ".join("%s: %s" % (who[th[0]], XFUNCS[th[2][0][1]] if th[2][0][0] == "xq" else "read_tty_all()")
+                   for th in c["threads"])
+    s = "threads " + t + " ; schedule " + " ".join(who[x] for x in c["sched"])
+    if r and r.get("xres"):
+        got = r["xres"].get("2")
+        s += " ; B's read_tty_all() returned %s" % (repr(bytes.fromhex(got)) if got is not None else None)
+        s += " ; " + ", ".join("%s returned %s" % (who[int(k)], v) for k, v in sorted(r["xres"].items()) if k != "2")
+    return s
 
 
 def gen_call(rng):
@@ -321,9 +384,13 @@ def run(ctx):
 
         ex = ThreadPoolExecutor(max_workers=3)
         mp_future = [ex.submit(one, mc) for mc in mp_plan(ctx)]
-    if ctx.replay:
+    xcases = []
+    if ctx.replay and "xchg" in ctx.replay["replay"]["case"]:
+        xcases, cases = [ctx.replay["replay"]["case"]], []
+    elif ctx.replay:
         cases = [ctx.replay["replay"]["case"]]
     else:
+        xcases = x_cases(rng, ctx.quick)
         n = 260 if ctx.quick else 3000
         cases = [dict(c) for c in CORPUS] + [gen_case(rng, 40 if i % 5 else 16) for i in range(n)]
         if not ctx.quick:
@@ -336,12 +403,39 @@ def run(ctx):
                 exhaustive_info.append({"threads": describe(dict(base, sched=[])).split(" ; ")[0], "depth": depth,
                                         "schedules": len(more), "prefix_runs": runs})
                 cases += more
-    codes, errs, impl, racy = evaluate(cases, want_racy=not ctx.replay)
+    codes, errs, impl, racy = evaluate(cases, want_racy=not ctx.replay) if cases else ([], [], [], 0)
     errors += errs
     mismatches, failures = [], []
+    # ---- exchanges: every byte read belongs to the reader's own reply (judged in Coq)
+    xhist = {"cases": len(xcases), "per_function": {}, "reader_had_to_wait": 0, "departs_from_discipline": 0,
+             "reply_delivered_to_another_caller": 0}
+    if xcases:
+        xcodes, errs, ximpl = evaluate_x(xcases)
+        errors += errs
+        seen_fail = set()
+        for c, r, code in sorted(zip(xcases, ximpl, xcodes), key=lambda z: len(z[0]["sched"])):
+            xhist["per_function"][c["xchg"]] = xhist["per_function"].get(c["xchg"], 0) + 1
+            xhist["reader_had_to_wait"] += bool(r.get("blocked_picks"))
+            if code >= 2:
+                xhist["reply_delivered_to_another_caller"] += 1
+                if c["xchg"] not in seen_fail and len(seen_fail) < 3:
+                    seen_fail.add(c["xchg"])
+                    failures.append({
+                        "signature": core.sig(["xchg", c["threads"], c["sched"]]),
+                        "what": "a terminal reply was delivered to another caller / lost: bytes read from the terminal do "
+                                "not belong to a reply to the reader's own request under the deterministic schedule: "
+                                + describe_x(c, r),
+                        "replay": {"case": c, "observed": r.get("log"), "results": r.get("xres"), "code": code},
+                    })
+            elif code == 1:
+                xhist["departs_from_discipline"] += 1
+                if xhist["departs_from_discipline"] <= 5:
+                    mismatches.append({"case": c, "code": 1, "observed": r.get("log"),
+                                       "what": "terminal I/O outside one hold of the terminal lock (discipline of "
+                                               "C14_discipline_gives_own_reply) — harmless on this schedule"})
     hist = {"root_threads": {}, "sched_len": {}, "events": {}, "starts": 0, "swaps": 0, "old_lock_then_new": 0,
             "unfinished_after_completion": 0, "would_race_with_single_with": racy,
-            "exhaustive": exhaustive_info}
+            "exhaustive": exhaustive_info, "exchange": xhist}
     distinct = set()
     names = {1: "acquire", 2: "release", 3: "enter", 4: "exit", 5: "write", 6: "reply", 7: "swap", 8: "start"}
     for c, r in zip(cases, impl):
@@ -412,6 +506,8 @@ def run(ctx):
         "RLock semantics (threading and multiprocessing): re-entrant (owner, count), acquire blocks while owned by "
         "another thread; OS semaphores, pickling of the lock to children and multiprocessing start-up are trusted",
         "the terminal answers requests in FIFO order",
+        "exchange scenarios: the scripted terminal answers a complete request at once and in full (the reply is in "
+        "the input queue before the writer continues), so a non-blocking drain finds the whole remainder",
     ]
     if mp_future is not None:
         outs = [f.result() for f in mp_future]
@@ -432,16 +528,22 @@ def run(ctx):
     return {
         "corr_name": "Locks.macro schedule replay (model) == traced real lock_tty/_process_start_wrapper/_process_run_wrapper "
                      "under the deterministic scheduler",
-        "evaluations": len(cases),
-        "distinct_nontrivial": len(distinct),
+        "evaluations": len(cases) + len(xcases),
+        "distinct_nontrivial": len(distinct) + xhist["reader_had_to_wait"],
         "rule": "corpus (incl. the hand-over race) + (thorough tier) ALL schedules of depth 11 / 9 / 9 in which every pick "
                 "moves, for three small thread systems (see histogram.exhaustive), each completed round-robin + random cases: 2-4 root threads with 0-2 lock_tty calls each "
                 "(re-entrancy depth 0-2, optional terminal round trip in the innermost body), one Process.start "
                 "(15%: two racing starts), a child process thread (30%: a second thread in the child, 30%: a "
                 "grandchild started by the child), the FIFO terminal as pseudo-thread 0; random schedule of depth "
                 "<= 40 (runs and single picks), then round-robin to completion; the full schedule is replayed in "
-                "Coq.  Non-trivial: >= 2 threads acquired a lock and the lock was swapped; distinct by case hash.",
-        "samples": [describe(c) for c in cases[:1] + cases[len(CORPUS):len(CORPUS) + 3]],
+                "Coq.  Non-trivial: >= 2 threads acquired a lock and the lock was swapped; distinct by case hash.  "
+                "EXCHANGES: the real get_terminal_name_version / get_fg_bg_colors / get_cell_size (first, uncached call; "
+                "scripted FIFO terminal on a pty, in the OS layer) in thread A, read_tty_all() in thread B released after "
+                "exactly k = 0..26 lock operations of A (every point of A's run, in particular between its two reads), "
+                "plus random interleavings and two different queries racing with the reader; the observed terminal I/O "
+                "(who wrote a request, who read how many bytes, who flushed) is judged in Coq: every byte read belongs "
+                "to the reader's own reply, nothing is left (non-trivial: the reader had to wait).",
+        "samples": [describe(c) for c in cases[:1] + cases[len(CORPUS):len(CORPUS) + 3]] + [describe_x(c) for c in xcases[18:19]],
         "histogram": hist,
         "mismatches": mismatches,
         "failures": failures,
@@ -453,6 +555,11 @@ def run(ctx):
             "reads of the module global cannot be intercepted: the replay grain glues each read to the preceding step "
             "(Locks.macro); the theorems are proved at the finer grain",
             "real-process runs are supporting evidence only (timing-dependent coverage, deterministic verdict)",
+            "exchange scenarios: utils.os / utils.termios are proxies that delegate to the real modules and log / answer "
+            "the I/O on the pty that stands for the terminal; query_terminal, read_tty, write_tty and the three getters are "
+            "the real code",
+            "harness/tx/tx_locks.py (the translated obligation C14_all_terminal_io_under_lock): its reading of lexical "
+            "regions in the library's source",
         ],
         "extra": extra,
     }
